@@ -7,7 +7,7 @@ from props.c14 import *  # noqa  (gen, exhaustive, pretty, split, join, mechanis
 ID = "C03"; PART = "net"; MODEL = "proc"; IMPL = "proc"
 COQ_PROP = "Properties/C14.v"; COQ_DIRS = ["Common", "CQueue", "Proc"]
 COQ_MODULE = "Proc.Model"; RUN_FN = "run"
-THEOREMS = ["C14_emitted_in_program_order", "C14_sends_keep_order"]
+THEOREMS = ["C14_emitted_in_program_order", "C14_sends_keep_order", "C14_emitted_in_program_order_cq", "C14_sends_keep_order_cq", "C14_run_over_cqueue_eq_run_over_spec"]
 QUICK_N = 1200; THOROUGH_N = 60000
 RULE = ("C14's scripted modules/elements, with the burst stream (one event emitting 24-96 sends with delays from"
         " {0,1,2,3}*unit in non-monotone order) weighted up; non-trivial = C14's rule")
